@@ -25,6 +25,8 @@ def FactsOK : Bool :=
   -- UnprefixedHashes: text after the LAST ':' (when there is one), TrimSpace'd
   C35.unprefixIndexFn == "strings.LastIndexByte" && C35.unprefixSep == "':'" && C35.unprefixGuard == "i!=-1" &&
   C35.unprefixSliceLow == "i+1" && C35.unprefixSliceHigh == "-" && C35.unprefixWrap == "strings.TrimSpace" &&
+  -- … computed on a copy that is returned (fix 656076b; before it the function wrote through `target.Hashes[:]`)
+  !C35.unprefixAliases && C35.unprefixReturnsLocal &&
   -- checkRuleHashes
   C35.checkEmptyGuard && C35.checkUsesUnprefixed && C35.checkFirstCompare && C35.checkCombine == "len(outputs) != 1" &&
   C35.checkHashers == "state.OutputHashCheckers()" && C35.checkOutputs == "FullOutputs" && C35.checkValidReturnsNil &&
